@@ -902,6 +902,57 @@ func compatTarget(rng *rand.Rand, s avro.Schema) *GT {
 	return g
 }
 
+// compatDropOneIn: a compatible target leaves out each schema field with probability 1/compatDropOneIn
+var compatDropOneIn = 7
+
+// compatPlain: nullable columns get the plain Go type (no pointer, no null.* wrapper), no extra
+// fields are added: the target of a table of numbers is a struct of numbers
+var compatPlain = false
+
+// genTableSchema: a table row as database exports have them: a flat record of scalar, string,
+// bytes and fixed columns, about half of them nullable (null first or second).
+func genTableSchema(rng *rand.Rand, name string) avro.Schema {
+	n := 3 + rng.Intn(8)
+	o := &avro.SchemaObject{Name: name}
+	kinds := 10
+	if rng.Intn(3) == 0 {
+		kinds = 5 // numbers and booleans only
+	}
+	for k := 0; k < n; k++ {
+		var t avro.Schema
+		switch rng.Intn(kinds) {
+		case 0:
+			t = avro.Schema{Type: "boolean"}
+		case 1:
+			t = avro.Schema{Type: "float"}
+		case 2:
+			t = avro.Schema{Type: "double"}
+		case 3:
+			t = avro.Schema{Type: "long"}
+		case 4:
+			t = avro.Schema{Type: "int"}
+		case 5:
+			t = avro.Schema{Type: "fixed", Object: &avro.SchemaObject{Name: fmt.Sprintf("%sFx%d", name, k), Size: 1 + rng.Intn(9)}}
+		case 6:
+			t = avro.Schema{Type: "boolean"}
+		case 7:
+			t = avro.Schema{Type: "double"}
+		case 8:
+			t = avro.Schema{Type: "string"}
+		default:
+			t = avro.Schema{Type: "bytes"}
+		}
+		switch rng.Intn(4) {
+		case 0:
+			t = avro.Schema{Type: "union", Union: []avro.Schema{{Type: "null"}, t}}
+		case 1:
+			t = avro.Schema{Type: "union", Union: []avro.Schema{t, {Type: "null"}}}
+		}
+		o.Fields = append(o.Fields, avro.SchemaRecordField{Name: fmt.Sprintf("c%d", k), Type: t})
+	}
+	return avro.Schema{Type: "record", Object: o}
+}
+
 func compatRecord(rng *rand.Rand, s avro.Schema, top bool) (*GT, bool) {
 	if s.Type != "record" || s.Object == nil {
 		return nil, false
@@ -912,7 +963,7 @@ func compatRecord(rng *rand.Rand, s avro.Schema, top bool) (*GT, bool) {
 	}
 	var fs, dropped []fld
 	for _, f := range s.Object.Fields {
-		if rng.Intn(7) == 0 {
+		if rng.Intn(compatDropOneIn) == 0 {
 			// dropped: the reader skips it
 			if t, ok := compatType(rng, f.Type, true); ok {
 				dropped = append(dropped, fld{f.Name, t})
@@ -934,7 +985,7 @@ func compatRecord(rng *rand.Rand, s avro.Schema, top bool) (*GT, bool) {
 			emb.Fields = append(emb.Fields, GF{Name: "E" + strconv.Itoa(i), Exported: true, JSON: f.json, T: f.t})
 		}
 	}
-	for i, n := 0, rng.Intn(6)-3; i < n; i++ { // extras not in the schema
+	for i, n := 0, rng.Intn(6)-3; i < n && !compatPlain; i++ { // extras not in the schema
 		k := basicTargetKinds[rng.Intn(len(basicTargetKinds))]
 		t := mkGT(k)
 		if rng.Intn(5) == 0 {
@@ -976,7 +1027,7 @@ func compatType(rng *rand.Rand, s avro.Schema, field bool) (*GT, bool) {
 		if !ok {
 			return nil, false
 		}
-		if pointable(t) {
+		if pointable(t) && !compatPlain {
 			switch r := rng.Intn(10); {
 			case r < 5:
 				t = ptrTo(t, 1)
@@ -990,7 +1041,7 @@ func compatType(rng *rand.Rand, s avro.Schema, field bool) (*GT, bool) {
 	if !ok {
 		return nil, false
 	}
-	if pointable(t) && rng.Intn(6) == 0 {
+	if pointable(t) && !compatPlain && rng.Intn(6) == 0 {
 		t = ptrTo(t, 1)
 	}
 	return t, true
@@ -1004,21 +1055,21 @@ func compatBase(rng *rand.Rand, s avro.Schema, field bool) (*GT, bool) {
 	case "boolean":
 		return mkGT("bool"), true
 	case "int", "long":
-		if field && rng.Intn(6) == 0 {
+		if field && !compatPlain && rng.Intn(6) == 0 {
 			return wrapGT("nullint"), true
 		}
 		return mkGT(pick("int64", "int64", "int64", "int", "int", "int32", "int32", "int16")), true
 	case "float":
 		return mkGT("float32"), true
 	case "double":
-		if field && rng.Intn(6) == 0 {
+		if field && !compatPlain && rng.Intn(6) == 0 {
 			return wrapGT("nullfloat"), true
 		}
 		return mkGT(pick("float64", "float64", "float32")), true
 	case "bytes":
 		return &GT{Kind: "slice", Elem: mkGT("uint8")}, true
 	case "string":
-		if field && rng.Intn(6) == 0 {
+		if field && !compatPlain && rng.Intn(6) == 0 {
 			return wrapGT("nullstring"), true
 		}
 		return mkGT("string"), true
